@@ -390,7 +390,7 @@ theorem bitfield_saturation_as_coded (v : BitVec 64) (bits : Nat) (h1 : 1 ≤ bi
     subset makes the translator fail, and this list change) -/
 theorem go_arith_translated :
     Go.translated = ["isSignedSumOverflow", "isUnsignedOverflow", "saturateValue", "signExtend", "isPowerOfTwo",
-      "sipRound", "getRangeClamp", "lrangeClamp", "ltrimClamp", "addIntOverflowGuard", "fieldAddIntOverflowGuard"] := rfl
+      "hashToIndex", "sipRound", "getRangeClamp", "lrangeClamp", "ltrimClamp", "addIntOverflowGuard", "fieldAddIntOverflowGuard"] := rfl
 
 /-- non-vacuity: i8, 100 + 100 overflows, 100 + 27 does not; i64 at the edge -/
 theorem bitfield_signed_overflow_examples :
